@@ -373,6 +373,36 @@ def run_case(case, ctx, acc):
                             if ck not in donek:
                                 donek.add(ck)
                                 acc.viols.append(Viol(subk, 'hydrogens', ck, what, inputs=dict(pdb=gen.to_text(items), opts=['--keep-protons'])))
+                    # hydrogens present in the input under default options, written with the naming conventions in use (current
+                    # 'HH11', old 'digit first' '1HH1', all named 'H'): they are discarded and rebuilt - same set, same warnings
+                    for style in (('current', 'digit-first', 'plain-H') if hidx else ()):
+                        items = []
+                        for i, it in enumerate(fed):
+                            if i in hidx and style != 'current':
+                                it = it.clone()
+                                nm = it.name
+                                if style == 'plain-H':
+                                    it.name4 = ' H  '
+                                elif nm[-1].isdigit() and len(nm) > 1:
+                                    nm = nm[-1] + nm[:-1]
+                                    it.name4 = nm if len(nm) == 4 else '%-4s' % nm
+                            items.append(it)
+                        mark = pk.warn_mark()
+                        seam.rotamer_parents.clear()
+                        mk = pk.run(gen.to_text(items), ())
+                        hk, rotk, vk = hydrogens(mk, seam)
+                        cvk, _ = complement(mk, s, pk.warnings_since(mark))
+                        if hk != h0:
+                            vk.append(('input-hydrogens-change-the-built-set', 'default %d hydrogens on %d atoms, with input hydrogens %d on %d' % (
+                                sum(len(x) for x in h0.values()), len(h0), sum(len(x) for x in hk.values()), len(hk))))
+                        subk = dict(case, mode='default+input-hydrogens', style=style)
+                        acc.case(nontrivial_key=jhash(subk), outcome='input-hydrogens/' + style)
+                        donek = set()
+                        for ck, what in vk + cvk:
+                            ck = ck + '/input-hydrogens-' + style
+                            if ck not in donek:
+                                donek.add(ck)
+                                acc.viols.append(Viol(subk, 'hydrogens', ck, what, inputs=dict(pdb=gen.to_text(items), opts=[])))
                 if 'host-debug' in mode:
                     continue      # geometry, complement and warnings only (equivariance is judged in the plain modes)
                 # equivariance
